@@ -53,5 +53,5 @@ def run(tier, seed, replay=None):
                      "store assumptions on this HDF5 version)",
                      "run under AddressSanitizer / UBSan: a crash or report is a harness abort and counts as a violation",
                      "the sign of a floating-point zero and NaN payloads are not distinguished; EigenSystem objects are not generated (structured table rows are: integer / string / double columns, overwrites with the same, fewer and more rows)",
-                     "a name is used for one kind only (attributes and datasets live in different HDF5 name spaces)"],
+                     "scalar kinds share names (a scalar written again replaces one of another kind); a read that asks for another kind than the stored one is not judged (HDF5 converts numeric kinds); datasets and attributes live in different HDF5 name spaces"],
         trivial_tags=())
